@@ -55,8 +55,10 @@ def hdrOf (id : Nat) (ws : List String) : Option (CallHdr NS) :=
   | [callc, cap, stip, kind, xfer, funded, sw, pOk, pFail] =>
     match callc.toNat?, cap.toNat?, stip.toNat?, parseKind kind, pOk.toNat?, pFail.toNat? with
     | some callc, some cap, some stip, some kind, some pOk, some pFail =>
+      -- xfer: 0 = no value, 1 = value moved by `evm.Call` (journaled bank move), 2 = CALLCODE with a value: balance check only
+      if xfer == "2" && kind != .callcode then none else
       some { callc, cap, stip, kind, xfer := if xfer == "1" then some (fun n => (100000 + id) :: n) else none,
-             funded := fun _ => funded == "1", swallow := sw == "1", pOk, pFail }
+             funded := fun _ => funded == "1", swallow := sw == "1", pOk, pFail, checkOnly := xfer == "2" }
     | _, _, _, _, _, _ => none
   | _ => none
 
